@@ -302,6 +302,15 @@ def _ret_value0(run: Run, act: list, ev: Any) -> Any:
     return ET.mk(int(what), (base * 8 + 7) if det else run.fresh(), k)
 
 
+def _worker_id_of(run: Run, name: str, ev: Any) -> int | None:
+    """worker id of the running invocation of step `name` whose input is the event object `ev` (None if not unique)"""
+    try:
+        ids = [ip.worker_id for ip in run.runner.state.workers[name].in_progress if ip.event is ev]
+    except Exception:
+        return None
+    return ids[0] if len(ids) == 1 else None
+
+
 async def _interp(run: Run, sdef: dict, ctx: Context, ev: Any, rn: int, inv: Any = None) -> Any:
     """`inv`: the identity of this invocation as `_body` records it (for a handler the ("sfe", step, input uid, attempts)
     tuple of the failure it handles; `uid` below is 0 there)"""
@@ -338,7 +347,8 @@ async def _interp(run: Run, sdef: dict, ctx: Context, ev: Any, rn: int, inv: Any
                     sk = getattr(ev.input_event if isinstance(ev, StepFailedEvent) else ev, "k", None)
                 sent = ET.mk(act[1], run.fresh(), sk)
             run.trace.steps.append(("sent", name, uid, rn, asyncio.get_event_loop().time(),
-                                    {"new_uid": sent.uid, "ty": act[1], "target": act[2], "inv": inv if inv is not None else uid}))
+                                    {"new_uid": sent.uid, "ty": act[1], "target": act[2], "inv": inv if inv is not None else uid,
+                                     "wid": _worker_id_of(run, name, ev), "obj": sent}))
             ctx.send_event(sent, step=act[2])
         elif op == "stream":
             ctx.write_event_to_stream(ET.mk(act[1], run.fresh(), None))
